@@ -152,6 +152,8 @@ impl Prop for C06 {
             explicit_gate: true,
             flushes,
             buffered,
+            gate_calls: vec![],
+            trace: false,
             inbound,
             reads,
             writes,
